@@ -14,6 +14,13 @@ def chk(pid, text, note, design, technique='deductive verification: ast->VC gene
     }
 
 CHECKS = [
+    chk("C19", "The library pattern is extracted from the real source, translated mechanically to an SMT regular expression with a "
+        "symbolic library name and proved component-wise equal to the statement's language (regular-language lemmas, z3); "
+        "resolve_from_ldd_output is under contract with loop invariants: normal return only when every request was resolved, "
+        "SystemExit otherwise; sanitize_shlib_path returns the base name.",
+        "Trusted: givc and its regex translation, re engine = regular-language semantics, re.escape, str.split/splitlines, "
+        "os.path functions. First-match order and libtool archives are not yet under contract.", "DESIGN.md section 4 C19",
+        technique="deductive verification: VC generator on the real functions + regular-language lemmas on the extracted pattern (z3/cvc5)"),
     chk("C05", "Contracts on the real introspectable-pass functions: local closure of every analysis function, monotonicity, "
         "frame, skip propagation, and range/first-match contracts of the index lookups; loops by invariants with a ghost index.",
         "Trusted: givc, schema, Transformer lookups (uninterpreted). The global clause (validate iterates to a fixpoint) is a "
